@@ -95,7 +95,8 @@ func textValid(m protoreflect.Message) bool {
 	return ok
 }
 
-// doubleRounds: the classifier of DESIGN finding 15 on one float32 value:
+// doubleRounds: the classifier of DESIGN finding 15 (fixed in /repo e864d0a; kept so that a regression is reported
+// under the old signature) on one float32 value:
 // float32(ParseFloat(text, 64)) != ParseFloat(text, 32) for the shortest text of v
 func doubleRounds(v float32) bool {
 	if v != v || math.IsInf(float64(v), 0) {
@@ -212,8 +213,9 @@ func oneC24(c *C, r *Root, m proto.Message, tag string) {
 	c.Case(tag+r.Name+hashKey(msgTok), nontrivial)
 }
 
-// float32 values of finding 15 placed in every float32 position of the small types
-func finding15(c *C, rs []*Root) {
+// regression of finding 15 (fixed in /repo e864d0a): the two float32 values that used to come back one ulp off,
+// placed in every float32 position of the small types; they must round-trip bit for bit
+func f32Regression(c *C, rs []*Root) {
 	for _, bits := range []uint32{0x15AE43FD, 0x95AE43FD} {
 		v := protoreflect.ValueOfFloat32(math.Float32frombits(bits))
 		for _, r := range rs {
@@ -234,8 +236,8 @@ func finding15(c *C, rs []*Root) {
 				default:
 					continue
 				}
-				c.Hist("finding15:case")
-				oneC24(c, r, m.Interface(), "finding15:")
+				c.Hist("f32-regression:case")
+				oneC24(c, r, m.Interface(), "f32-regression:")
 			}
 		}
 	}
@@ -306,7 +308,7 @@ func sweepFloat32(c *C) {
 func runC24(c *C) {
 	c.R.Rule = "a case = one message under all 8 combinations of Multiline/Indent/EmitASCII, generated and dynamicpb; non-trivial = Marshal succeeded with non-empty output; distinct by type and content"
 	rs := roots(c)
-	finding15(c, rs)
+	f32Regression(c, rs)
 	for _, in := range c.ReplayInputs() {
 		replayC24(c, rs, in)
 	}
